@@ -117,7 +117,7 @@ def plan(tier, seed):
     shards = [small[i:i + 40] for i in range(0, len(small), 40)] + [[i] for i in ins if i['d']['t'] == 'file']
     return dict(shards=shards, exhaustive=True,
                 rule=('docked pairs: 19 titratable kinds x 53 kinds (7 titratable + 5 polar side chains, N+, C-, 18 ligand templates, 21 '
-                      'ions) x distances %s x burial levels %s; all 3-group clusters; 10 A cut-outs of 4 proteins. also two- and three-model inputs (monitors on every conformation and on the average), parameter files with wide ranges / low hydrogen-bond threshold / common charge centre / extended exclusion lists, and two calculations in a row in one process. non-trivial = distinct '
+                      'ions) x distances %s x burial levels %s; all 3-group clusters; 10 A cut-outs of 4 proteins. clusters whose third part is the insertion-code twin of the second (same chain and number); also two- and three-model inputs (monitors on every conformation and on the average), parameter files with wide ranges / low hydrogen-bond threshold / common charge centre / extended exclusion lists, and two calculations in a row in one process. non-trivial = distinct '
                       'inputs whose record carries at least one determinant; the number of distinct (type, type, determinant class, sign) '
                       'combinations observed is reported as distinct outcomes') % (
                           '(2.8,3.6,6.0)' if tier == 'quick' else '(2.6 ... 9.8, 9 values)', 'mid, deep' if tier == 'quick' else 'exposed, mid, deep'),
